@@ -17,10 +17,8 @@ Definition good (s : str) (f : fmtstr) : bool :=
   removes_only mask s (text f) &&
   (* no escape sequence at all: verbatim and unformatted *)
   (if forallb negb mask then cells_eqb (cells f) (plain_cells s) else true) &&
-  (* only numeric control sequences (with at least one 7-bit one, or no 8-bit CSI
-     character at all): exactly s without them *)
-  (if all_numeric s && (has_esc_lb s || negb (existsb (N.eqb 155) s))
-   then str_eqb (text f) (outside s) else true).
+  (* only numeric control sequences: exactly s without them *)
+  (if all_numeric s then str_eqb (text f) (outside s) else true).
 
 Definition spec_ok (c : case) : bool :=
   let '(s, r1, r2) := c in
